@@ -8,7 +8,10 @@
 (* moment the node produces its reply and the moment the proxy installs it.  *)
 EXTENDS Refresh, Sequences, Json
 
-CONSTANT MaxSteps
+CONSTANTS MaxSteps,
+          Periodic      \* the replay runs with a short refresh period: the loop also moves when its timer fires (Tick), and
+                        \* silent layout changes (healed by the period only) are part of the histories; FALSE: the period is an
+                        \* hour, neither happens
 
 VARIABLES hist, finished,
           wins      \* loop phases in which a request has noticed the stale table so far (strata)
@@ -40,6 +43,11 @@ EnvMay == ~(loop = "wait" /\ trig)
 GenNext ==
   /\ ~finished /\ Len(hist) < MaxSteps
   /\ \/ \E k \in {"master", "replica"} : EnvMay /\ LayoutChange(k) /\ Log("Change", k) /\ UNCHANGED wins
+     \/ Periodic /\ EnvMay /\ LayoutChange("silent") /\ Log("Change", "silent")
+                  /\ wins' = wins \cup {IF \E i \in 1..Len(hist) : hist[i].a = "Tick"
+                                          THEN (IF loop = "wait" THEN "silent:after-quiet-period" ELSE "silent:during-periodic-refresh")
+                                          ELSE "silent:first-period"}
+     \/ Periodic /\ LoopTick /\ Log("Tick", "") /\ UNCHANGED wins
      \/ EnvMay /\ Redirect /\ Log("Notice", Phase) /\ wins' = wins \cup {Win}
      \/ LoopTake /\ loop' = "asking" /\ Log("Take", "") /\ UNCHANGED wins
      \/ LoopRefreshed /\ rounds' # rounds /\ Log("Answer", "") /\ UNCHANGED wins
